@@ -465,6 +465,7 @@ fn c11_user(r: &mut Report, uc: &UCmd, before: &[String], after: &[String], live
             for e in &new {
                 *grant_new.entry(e.version.clone()).or_insert(0) |= spec.cl(&e.criteria).unwrap_or(0);
             }
+            let grant_new: BTreeMap<VetVersion, u64> = grant_new.into_iter().filter(|(_, g)| *g != 0).collect();
             if grant_new != grant_old.into_iter().filter(|(_, g)| *g != 0).collect() {
                 r.fail("oracle", "C11/ucmd/exemption-touched-without-ask", format!("`{lab}`: exemptions of {n} changed meaning although the command is not about {n}: {old:?} -> {new:?}"), case);
             }
